@@ -8,6 +8,6 @@ def reprocessNIters : Nat := 32
 def reprocessK : Nat := 15
 def int32Min : Int := -2147483647
 def int32Max : Int := 2147483646
-def disconnectionDistances : List (String × Rat) := [("bit_jaccard", ((1 : Rat) / 1)), ("braycurtis", ((1 : Rat) / 1)), ("correlation", ((2 : Rat) / 1)), ("cosine", ((2 : Rat) / 1)), ("dice", ((1 : Rat) / 1)), ("hellinger", ((1 : Rat) / 1)), ("jaccard", ((1 : Rat) / 1))]
+def disconnectionDistances : List (String × Rat) := [("bit_jaccard", ((1 : Rat) / 1)), ("correlation", ((2 : Rat) / 1)), ("cosine", ((2 : Rat) / 1)), ("dice", ((1 : Rat) / 1)), ("hellinger", ((1 : Rat) / 1)), ("jaccard", ((1 : Rat) / 1))]
 
 end Umap.Generated
